@@ -47,11 +47,13 @@ def plan(tier):
         p.append((S.T2(shared=S.VM1_CHAIN[:1]).variant("/shared=install,ALL-SCHEDULES"), 99, 4))
     # configuration matrix: worker kinds x reuse scopes x slot bindings (same selection, default schedule and single deviations)
     p += S.config_matrix(lambda nets, **kw: S.T2(nets, D=DL, **kw), tier)
+    p += [(scn.variant(",mt=2,mct=2"), k, w) for scn, k, w in S.config_matrix(lambda nets, **kw: S.T1(nets, D=DL, **kw), tier, k_quick=0, k_thorough=1,
+                                                                              extra_params={"max_tries": 2, "max_concurrent_tries": 2})]
     return p
 
 
 def run(tier, seed):
-    return checkbase.run_e1("C04", tier, seed, TECH, (lambda: plan(tier)), monitors.c04, 420, 2400,
+    return checkbase.run_e1("C04", tier, seed, TECH, (lambda: plan(tier)), monitors.c04, 600, 2400,
                             "executions = complete runs of the real traversal, one per choice sequence (durations incl. 3 and 5 back-off periods, outcomes, "
                             "tie order) with at most k non-default choices; distinct = distinct (scenario, (worker,test,status) sequence)",
                             ["a test is modelled by the world; durations stay within the timeout budget (the over-run branch is explored separately in thorough)",
